@@ -395,6 +395,8 @@ func C01(ctx *core.Ctx) {
 	ctx.Rule("C01.R7", "frame ownership: every frame a reader loop hands to the registry is a buffer allocated for that frame alone (the registry passes it to the caller uncopied)", 1)
 	frameOwnership(ctx, r, "C01.R7")
 
+	ctx.Rule("C01.R10", "bytes handed to the peer belong to the call: no Bytes() of a buffer kept in a field of a transport or client", 4)
+	sharedBufferBytes(ctx, r, "C01.R10")
 	// ---- R4/R5 Request implementations --------------------------------------
 	for _, req := range r.Impl("FTransport", "Request") {
 		c01Request(ctx, r, req, "C01.R4", "C01.R5")
